@@ -42,7 +42,7 @@ func MixS(seed uint64, s string) uint64 {
 	return x
 }
 
-func (r *Rng) Bool() bool         { return r.Intn(2) == 0 }
+func (r *Rng) Bool() bool            { return r.Intn(2) == 0 }
 func (r *Rng) Chance(p float64) bool { return r.Float64() < p }
 func (r *Rng) Range(lo, hi int) int { // inclusive
 	if hi <= lo {
